@@ -215,7 +215,7 @@ func checkC20(p *Prog, rp *Report) {
 				// parse effects: "<op>(args)" followed by "<op>(args)=ok|fail"
 				type step struct {
 					op, a, b string
-					ok      bool
+					ok       bool
 				}
 				var steps []step
 				statKind := ""
